@@ -744,6 +744,8 @@ impl Model {
                 }
                 // ---- C33: metadata of ALL chosen shares recorded before ANY is requested
                 let have: BTreeSet<Cid> = meta.unwrap_or_default().into_iter().collect();
+                need.sort();
+                need.dedup();
                 let need_cids = self.cids_of(h, &need);
                 let missing = need_cids.iter().filter(|c| !have.contains(c)).count();
                 if missing > 0 {
@@ -798,6 +800,10 @@ impl Sys {
         let entries: Vec<Entry> = std::mem::take(&mut self.hub.lock().unwrap().log);
         for e in entries {
             self.m.on_entry(e);
+        }
+        // every started block must have announced its shares by now (else the share checks are vacuous)
+        if let Some(h) = self.m.inprog.iter().find(|(_, i)| self.m.rounds[**i].chosen.is_none()).map(|(h, _)| *h) {
+            self.m.fatal.get_or_insert_with(|| format!("block {h} started (metadata recorded) but no SamplingStarted event at quiescence"));
         }
         // requests whose asker is gone (block cancelled by a disconnection, or timed out in p2p)
         self.hub.lock().unwrap().outstanding.retain(|o| !o.respond_to.is_closed());
@@ -1236,6 +1242,16 @@ pub fn explore_cfg(cfg: &Cfg, ex: &Explore, props: &[&str], stats: &Stats, rep: 
     }
     // per-configuration extras would overwrite each other: keep them under the cfg name
     let extras = std::mem::take(&mut local.extras);
+    if let Some(per) = extras.get("executions_by_deviations").and_then(|v| v.as_array()) {
+        let mut s = stats.lock().unwrap();
+        for (d, n) in per.iter().enumerate() {
+            let n = n.as_u64().unwrap_or(0);
+            *s.entry("#executions".into()).or_insert(0) += n;
+            if d > 0 {
+                *s.entry("#deviating-executions".into()).or_insert(0) += n;
+            }
+        }
+    }
     local.extra(&format!("cfg:{}", cfg.name), serde_json::json!(extras));
     rep.merge_in(local);
     if let Some(m) = machinery.into_inner().unwrap() {
@@ -1273,6 +1289,11 @@ pub fn replay(case: &serde_json::Value, props: &[&str], rep: &mut Report) -> Res
 pub fn merge_stats(stats: &Stats, rep: &mut Report) {
     let s = stats.lock().unwrap();
     for (k, v) in s.iter() {
-        *rep.classes.entry(format!("seen:{k}")).or_insert(0) += v;
+        match k.as_str() {
+            // every execution is a distinct choice sequence by construction of the explorer
+            "#executions" => rep.extra("distinct_by_construction", serde_json::json!(v)),
+            "#deviating-executions" => rep.extra("distinct_nontrivial_by_construction", serde_json::json!(v)),
+            _ => *rep.classes.entry(format!("seen:{k}")).or_insert(0) += v,
+        }
     }
 }
